@@ -116,3 +116,17 @@ func (w *World) Query(ctx sdk.Context, from, to common.Address, a abi.ABI, res i
 }
 
 func ethtypesSigner(chainID *big.Int) ethtypes.Signer { return ethtypes.LatestSignerForChainID(chainID) }
+
+// Deploy creates a contract with the given init code from actor (real EvmKeeper.DeployContract).
+func (w *World) Deploy(ctx sdk.Context, from Actor, initCode []byte) common.Address {
+	addr, err := w.App.EvmKeeper.DeployContract(ctx, from.Hex(), abi.ABI{}, initCode)
+	if err != nil {
+		panic(fmt.Sprintf("deploy: %v", err))
+	}
+	return addr
+}
+
+// Slot reads a storage slot of a contract.
+func (w *World) Slot(ctx sdk.Context, addr common.Address, slot byte) common.Hash {
+	return w.App.EvmKeeper.GetState(ctx, addr, common.BytesToHash([]byte{slot}))
+}
